@@ -202,7 +202,7 @@ PROPS["C01"] = {
     "module": "MsiProofs.Props.C01",
     "gen": ["limits", "summary", "column", "streamname", "category", "codepage"],
     "profiles": ["dev"],
-    "theorems": ["MsiProofs.C01.cell_roundtrip", "MsiProofs.C01.storable_spec", "MsiProofs.C01.flush_clean", "MsiProofs.C01.finish_clears", "MsiProofs.C01.flush_idempotent", "MsiProofs.C01.close_modes_same_bytes"],
+    "theorems": ["MsiProofs.C01.cell_roundtrip", "MsiProofs.C01.rows_roundtrip", "MsiProofs.C01.pool_roundtrip", "MsiProofs.C01.storable_spec", "MsiProofs.C01.flush_clean", "MsiProofs.C01.finish_clears", "MsiProofs.C01.flush_idempotent", "MsiProofs.C01.close_modes_same_bytes"],
     "level_text": 'Lean theorems on the package model: every storable cell is read back from its bytes (both reference widths), the empty string is stored as null, flush writes exactly what changed and a second flush changes nothing, the three ways of closing leave the same bytes. Composition over whole histories: byte-exact correspondence model vs real crate + oracle on the real code: snapshot before close = snapshot after reopen, for every close mode incl. crash-after-flush (bytes on the medium when flush returned, package forgotten).',
     "level_note": "Trusted: Lean kernel; the hand-written package model (MsiModel/Pkg.lean, PkgApi.lean, Pool, Table, PropSet, Summary), tied to the code by byte-exact correspondence: the same request histories run on the real crate and on the model's definitions, compared on every reply including full snapshots and the raw bytes of every saved stream; cfb is modelled as a finite map from names (compared by UTF-16 length and upper-cased text) to byte strings; the 24 table-backed code pages are modelled on ASCII text only (non-ASCII text is exercised under UTF-8; all pages are exercised by the oracle on the real code).",
     "technique": 'Lean 4 proof (codec round trip, flush idempotence) + byte-exact differential histories + reopen oracle',
@@ -267,7 +267,7 @@ PROPS["C08"] = {
     "module": "MsiProofs.Props.C08",
     "gen": ["limits", "column"],
     "profiles": ["dev"],
-    "theorems": ["MsiProofs.C08.cell_roundtrip", "MsiProofs.C08.min_is_null", "MsiProofs.C08.increfScan_total", "MsiProofs.C08.incref_accounting", "MsiProofs.C08.decrefAt_total", "MsiProofs.C08.decref_accounting"],
+    "theorems": ["MsiProofs.C08.cell_roundtrip", "MsiProofs.C08.min_is_null", "MsiProofs.C08.rows_roundtrip", "MsiProofs.C08.pool_roundtrip", "MsiProofs.C08.increfScan_total", "MsiProofs.C08.incref_accounting", "MsiProofs.C08.decrefAt_total", "MsiProofs.C08.decref_accounting"],
     "level_text": "Lean theorems: cells are offset-binary with zero = null and the reserved minimum; incref adds exactly one reference to an entry holding exactly the string and never yields a live empty entry, decref removes exactly one and clears the text at zero (unused entries are empty), dangling references change nothing. Tie: the raw streams of every saved file are decoded by an independent decoder (harness/src/decode.rs): whole rows, live references, exact reference counts over all tables incl. the catalog, no stale text, catalog = existing tables with columns numbered 1..n, rows = API rows; and compared byte-for-byte with the model's own save.",
     "level_note": "Trusted: Lean kernel; the hand-written package model (MsiModel/Pkg.lean, PkgApi.lean, Pool, Table, PropSet, Summary), tied to the code by byte-exact correspondence: the same request histories run on the real crate and on the model's definitions, compared on every reply including full snapshots and the raw bytes of every saved stream; cfb is modelled as a finite map from names (compared by UTF-16 length and upper-cased text) to byte strings; the 24 table-backed code pages are modelled on ASCII text only (non-ASCII text is exercised under UTF-8; all pages are exercised by the oracle on the real code).",
     "technique": 'Lean 4 proof (reference-count accounting by induction) + independent format decoder on real saved bytes',
@@ -355,6 +355,21 @@ PROPS["C09"] = {
     "rule": "one corruption per case (open walks a HashMap: with two faults the first error met is not fixed); kinds: word_replaced, truncated, halved, extended, stream_missing, summary_byte, wrong_clsid; each followed by a fixed battery of 18 calls; raw byte inputs: random bytes, truncated files, files with 1-4 damaged bytes. non-trivial = distinct inputs",
     "trusted_base": PROPS["C01"]["trusted_base"] + ["cfb 0.10 (bytes -> container; its Stream::seek refuses positions beyond the end)"],
     "assumptions": ["allocation failure for attacker-chosen lengths (up to 4 GiB, lazily committed on Linux) is outside the model"],
+}
+
+PROPS["C02"] = {
+    "module": "MsiProofs.Props.C02",
+    "gen": ["limits", "summary", "column", "codepage", "category", "streamname"],
+    "profiles": ["dev"],
+    "theorems": ["MsiProofs.C02.pool_entries_read", "MsiProofs.C02.pool_strings_read", "MsiProofs.C02.pool_roundtrip",
+                 "MsiProofs.C02.live_empty_entry_misread", "MsiProofs.C02.rows_roundtrip", "MsiProofs.C02.cell_roundtrip",
+                 "MsiProofs.C02.typeword_roundtrip", "MsiProofs.C02.int_size_one_is_int16", "MsiProofs.C02.cp_zero_default"],
+    "level_text": "Lean theorems: the readers against the format for every well-formed input of each layer: the pool reader reads every entry list the format can express (both reference widths, long-string escape, holes, duplicates, any order; a live empty entry is exactly the inexpressible case), the data stream is cut and decoded correctly, reader o writer = id on pools; row blocks are whole numbers of column-major rows read back exactly; every storable cell and type word round-trips; size-1 integers and code page 0 are read as documented. The catalog pass and the property-set reader: tied by correspondence. Tie: files produced by an independent encoder of the format (harness/src/decode.rs: explicit layout choices - reference width, holes, duplicates, over-counted counts, entry order, unsorted rows, 1/2/4-byte integer fields, with/without _Validation, any supported code-page id incl. 0, > 64 KiB strings, 32-column tables; property sets with arbitrary property order, offsets, padding, versions) are opened by the real reader and compared with what the independent decoder reads from the same streams; then API edits, save, independent decode again.",
+    "level_note": PROPS["C01"]["level_note"] + " The independent encoder/decoder are ours (written from the format as implemented by this library's documentation; no network to check against other readers).",
+    "technique": "Lean 4 proof (reader vs writer codecs for all well-formed inputs) + differential testing on independently encoded files",
+    "rule": "seeded databases: 1-3 tables of 1-32 columns in any type mix, keys not necessarily leading, 0-6 rows, strings shared between cells, occasionally > 64 KiB or non-ASCII (UTF-8 / id 0); pool layout: 2- or 3-byte references, filler entries (holes, unreferenced text), over-counted counts, duplicated entries with alternating references; with or without _Validation; rows in reverse order; summary by the independent property-set writer (random property order, value order, padding gaps, section offset, version, OS) under code pages 65001, 0, 1252, 932, 20127; optional binary streams; then insert/update/delete/stream/summary edits, flush, raw, reopen. non-trivial = loaded files + decoded saves",
+    "trusted_base": PROPS["C01"]["trusted_base"],
+    "assumptions": ["the format facts in harness/src/decode.rs (position of the high length word in the long-string escape follows the library's documented reading)"],
 }
 
 # reasons for properties not claimed (yet); everything else defaults to "not yet built"
